@@ -15,10 +15,10 @@ git apply $OUT/patch.diff || { echo "PATCH DOES NOT APPLY" | tee -a $LOG; exit 2
 go build ./... >> $LOG 2>&1 && echo "build: ok" >> $LOG || { echo "build: FAILED" | tee -a $LOG; exit 2; }
 (cd $OUT/demo && find . -type f) | while read f; do mkdir -p $WT/$(dirname $f); cp $OUT/demo/$f $WT/$f; done
 echo "== demo WITH change: go test -run '$RUN' $PKG" >> $LOG
-go test -vet=off -count=1 -run "$RUN" $PKG >> $LOG 2>&1; WITH=$?
+go test $SEED_TEST_FLAGS -vet=off -count=1 -run "$RUN" $PKG >> $LOG 2>&1; WITH=$?
 git apply -R $OUT/patch.diff
 echo "== demo WITHOUT change" >> $LOG
-go test -vet=off -count=1 -run "$RUN" $PKG >> $LOG 2>&1; WITHOUT=$?
+go test $SEED_TEST_FLAGS -vet=off -count=1 -run "$RUN" $PKG >> $LOG 2>&1; WITHOUT=$?
 git apply $OUT/patch.diff
 (cd $OUT/demo && find . -type f) | while read f; do rm -f $WT/$f; done
 echo "demo exit with change: $WITH, without: $WITHOUT" | tee -a $LOG
